@@ -32,7 +32,7 @@ ASSUMPTIONS = [
 ]
 
 LAYOUTS = ["blocks", "alternating", "same-name-sizes", "same-name-atoms", "only-number", "only-name",
-           "digit-names", "random", "mixed-kinds", "mixed-kinds"]
+           "digit-names", "random", "mixed-kinds", "mixed-kinds", "wide-names"]
 
 
 @st.composite
@@ -57,6 +57,10 @@ def file_case(draw, tier):
         combos = [(nm, sz, tag) for nm in ("LIG", "SOL", "LIG2") for sz in sizes for tag in ("C", "N")]
         pick = rng.choice(len(combos), size=int(rng.integers(3, 8)), replace=False)
         kinds = [(combos[i][0], atoms(combos[i][1], combos[i][2])) for i in pick]
+    elif layout == "wide-names":
+        # residue and atom names that fill their five columns (they touch in the line), next to short ones
+        kinds = [("GLYCN", ["HO6AB", "C1", "OWTP5"]), ("TIP5P", ["OWTP5", "HW1", "HW2XX"]), ("GLY", ["HO6AB", "N"]),
+                 ("CN", atoms(int(rng.integers(1, 5))))]
     elif layout == "digit-names":
         kinds = [("2A", atoms(int(rng.integers(1, 5)))), ("A", atoms(int(rng.integers(1, 5)))),
                  ("1A", atoms(int(rng.integers(1, 5)))), ("11A", atoms(2))]
@@ -114,6 +118,7 @@ def file_case(draw, tier):
     ops = draw(st.lists(op_strategy(), min_size=1, max_size=nops))
     return {"layout": layout, "records": records, "title": title, "box": box, "vel": vel, "ops": ops,
             "prior": draw(st.booleans()), "crlf": draw(st.integers(0, 4)) == 0, "fresh_for_ops": draw(st.booleans()),
+            "align": draw(st.sampled_from([0, 0, 0, 1, 2, 3])),
             "naming": draw(st.sampled_from(["abs", "abs", "abs", "rel-chdir", "handle-rel-chdir", "replaced", "renamed", "handle-replaced"]))}
 
 
@@ -184,7 +189,8 @@ def _check(case, handles):
         old = lib("load", SystemGro, source())
         lib("iterate", list, old)
         del old
-    indep.write_gro(path, case["title"], records, case["box"], newline="\r\n" if case.get("crlf") else None)
+    indep.write_gro(path, case["title"], records, case["box"], newline="\r\n" if case.get("crlf") else None,
+                    align=case.get("align", 0))
     if case.get("prior"):
         os.utime(path, (1700000000, 1700000000))
     parsed = indep.read_gro(path)
@@ -306,7 +312,7 @@ def _check(case, handles):
                         "rewritten-path" if case.get("prior") else "fresh-path",
                         "crlf" if case.get("crlf") else "lf", "ops-on:" + ("fresh-object" if case.get("fresh_for_ops") else "walked-object"),
                         "zero-velocity-atom" if any(len(r) == 10 and not any(r[7:]) for r in records) else "no-frozen-atom",
-                        "naming:" + naming],
+                        "naming:" + naming, "names-placed:%d" % case.get("align", 0)],
             "sample": {"layout": case["layout"], "n_residues": n, "first_records": case["records"][:3], "ops": case["ops"][:12]}}
 
 
